@@ -10,10 +10,57 @@ spec fn placeholder_for(h: Seq<char>) -> J { J::Obj(seq![(K_DOTS(), J::Str(h))])
 spec fn enc(u: J, s: Strat, p: J, ds: DS, off: int) -> bool decreases u, 0nat {
     match u {
         J::Arr(a) => p is Arr && p->Arr_0.len() == a.len() && enc_arr(a, s, p->Arr_0, ds, off, a.len()),
-        J::Obj(m) => p is Obj && enc_members(m, s, p->Obj_0, sd_strs(p->Obj_0), ds, off, m.len()),
+        J::Obj(m) => p is Obj && enc_members(m, s, p->Obj_0, sd_strs(p->Obj_0), ds, off, m.len())
+            && sd_only(sd_strs(p->Obj_0), m, s, ds, off, m.len()),
         _ => p == u,
     }
 }
+// every entry of an object's digest list is the digest of the disclosure of one of that object's designated members, or a
+// decoy (the digest of a fresh salt): nothing else is listed
+spec fn decoy_digest(x: J) -> bool { exists|salt: Seq<char>| is_salt(salt) && x == J::Str(H(utf8(salt))) }
+spec fn member_digest_at(m: Seq<(Seq<char>, J)>, s: Strat, ds: DS, off: int, i: int) -> J {
+    J::Str(ds[off + hcount_members(m, s, i as nat) + hcount(m[i].1, next_spec(s, m[i].0))].hash@)
+}
+spec fn member_digest(m: Seq<(Seq<char>, J)>, s: Strat, ds: DS, off: int, n: nat, x: J) -> bool {
+    exists|i: int| 0 <= i < n && i < m.len() && sd_spec(s, (#[trigger] m[i]).0) && x == member_digest_at(m, s, ds, off, i)
+}
+spec fn sd_only(sdl: Seq<J>, m: Seq<(Seq<char>, J)>, s: Strat, ds: DS, off: int, n: nat) -> bool {
+    forall|q: int| 0 <= q < sdl.len() ==> member_digest(m, s, ds, off, n, #[trigger] sdl[q]) || decoy_digest(sdl[q])
+}
+proof fn lemma_sd_only_extends(sdl: Seq<J>, m: Seq<(Seq<char>, J)>, s: Strat, d1: DS, d2: DS, off: int, n: nat, n2: nat)
+    requires off >= 0, n <= n2 <= m.len(), same_upto(d1, d2, off + hcount_members(m, s, n)), sd_only(sdl, m, s, d1, off, n)
+    ensures sd_only(sdl, m, s, d2, off, n2)
+{
+    assert forall|q: int| 0 <= q < sdl.len() implies member_digest(m, s, d2, off, n2, #[trigger] sdl[q]) || decoy_digest(sdl[q]) by {
+        if member_digest(m, s, d1, off, n, sdl[q]) {
+            let i = choose|i: int| 0 <= i < n && i < m.len() && sd_spec(s, (#[trigger] m[i]).0) && sdl[q] == member_digest_at(m, s, d1, off, i);
+            lemma_hcount_members_mono(m, s, (i + 1) as nat, n);
+            assert(hcount_members(m, s, (i + 1) as nat) == hcount_members(m, s, i as nat) + hcount(m[i].1, next_spec(s, m[i].0)) + 1);
+            assert(member_digest_at(m, s, d2, off, i) == sdl[q]);
+        }
+    }
+}
+proof fn lemma_sd_only_push_member(sdl: Seq<J>, m: Seq<(Seq<char>, J)>, s: Strat, ds: DS, off: int, i: int)
+    requires 0 <= i < m.len(), sd_spec(s, m[i].0), sd_only(sdl, m, s, ds, off, (i + 1) as nat)
+    ensures sd_only(sdl.push(member_digest_at(m, s, ds, off, i)), m, s, ds, off, (i + 1) as nat)
+{
+    let t = sdl.push(member_digest_at(m, s, ds, off, i));
+    assert forall|q: int| 0 <= q < t.len() implies member_digest(m, s, ds, off, (i + 1) as nat, #[trigger] t[q]) || decoy_digest(t[q]) by {
+        if q < sdl.len() { assert(t[q] == sdl[q]); } else { let _ = m[i]; }
+    }
+}
+proof fn lemma_sd_only_sub(sdl0: Seq<J>, sdl1: Seq<J>, m: Seq<(Seq<char>, J)>, s: Strat, ds: DS, off: int, n: nat)
+    requires sd_only(sdl0, m, s, ds, off, n), forall|x: J| sdl1.contains(x) ==> sdl0.contains(x)
+    ensures sd_only(sdl1, m, s, ds, off, n)
+{
+    assert forall|q: int| 0 <= q < sdl1.len() implies member_digest(m, s, ds, off, n, #[trigger] sdl1[q]) || decoy_digest(sdl1[q]) by {
+        assert(sdl1.contains(sdl1[q]));
+        let j = choose|j: int| 0 <= j < sdl0.len() && sdl0[j] == sdl1[q];
+    }
+}
+broadcast proof fn b_str_js_strs_push(sd: Seq<String>, r: String)
+    ensures #[trigger] str_js(strs(sd.push(r))) == str_js(strs(sd)).push(J::Str(r@))
+{ assert(str_js(strs(sd.push(r))) =~= str_js(strs(sd)).push(J::Str(r@))); }
 spec fn enc_elem(a: Seq<J>, s: Strat, pa: Seq<J>, ds: DS, off: int, i: int) -> bool
     decreases a, 0nat
     when 0 <= i < a.len()
@@ -69,7 +116,8 @@ proof fn lemma_enc_extends(u: J, s: Strat, p: J, d1: DS, d2: DS, off: int)
 {
     match u {
         J::Arr(a) => { lemma_enc_arr_extends(a, s, p->Arr_0, d1, d2, off, a.len(), a.len()); }
-        J::Obj(m) => { lemma_enc_members_extends(m, s, p->Obj_0, sd_strs(p->Obj_0), d1, d2, off, m.len(), m.len()); }
+        J::Obj(m) => { lemma_enc_members_extends(m, s, p->Obj_0, sd_strs(p->Obj_0), d1, d2, off, m.len(), m.len());
+                       lemma_sd_only_extends(sd_strs(p->Obj_0), m, s, d1, d2, off, m.len(), m.len()); }
         _ => {}
     }
 }
@@ -309,7 +357,7 @@ proof fn lemma_enc_obj_finish_update(m: Seq<(Seq<char>, J)>, s: Strat, pm1: Seq<
     requires !has_reserved_entries(m), pm1.len() > 0, pm1[0].0 == K_SD(),
         enc_members(m, s, pm1, sdl0, ds, off, m.len()),
         forall|x: J| sdl0.contains(x) ==> sdl2.contains(x),
-    ensures ({ let pm2 = pm1.update(0, (K_SD(), J::Arr(sdl2))); enc_members(m, s, pm2, sd_strs(pm2), ds, off, m.len()) })
+    ensures ({ let pm2 = pm1.update(0, (K_SD(), J::Arr(sdl2))); enc_members(m, s, pm2, sd_strs(pm2), ds, off, m.len()) && sd_strs(pm2) == sdl2 })
 {
     let pm2 = pm1.update(0, (K_SD(), J::Arr(sdl2)));
     lemma_j_idx0(pm2, K_SD());
